@@ -138,6 +138,13 @@ func Run() error {
 		{`[1,2]`, []ref.Hunk{{Path: []ref.PE{ref.MsetPE()}, Remove: []ref.V{1.0, 1.0}}}, ``, true},
 		{`[{"id":1,"v":5}]`, []ref.Hunk{{Path: []ref.PE{ref.SetKeysPE(map[string]ref.V{"id": 1.0}), ref.K("v")}, Remove: []ref.V{5.0}, Add: []ref.V{6.0}}}, `[{"id":1,"v":6}]`, false},
 		{`[{"id":1,"v":5}]`, []ref.Hunk{{Path: []ref.PE{ref.SetKeysPE(map[string]ref.V{"id": 1.0}), ref.K("v")}, Remove: []ref.V{1.0}, Add: []ref.V{6.0}}}, ``, true},
+		// several context lines per side (hand-written hunks): k-th before-line = element at i-m+k, '[' / ']' only just outside
+		{`[1,2,3,4]`, []ref.Hunk{{Path: []ref.PE{ref.I(2)}, Before: []ref.V{1.0, 2.0}, Remove: []ref.V{3.0}, Add: []ref.V{9.0}, After: []ref.V{4.0, ref.Void{}}}}, `[1,2,9,4]`, false},
+		{`[2,1,3,4]`, []ref.Hunk{{Path: []ref.PE{ref.I(2)}, Before: []ref.V{1.0, 2.0}, Remove: []ref.V{3.0}, Add: []ref.V{9.0}, After: []ref.V{4.0}}}, ``, true},
+		{`[1]`, []ref.Hunk{{Path: []ref.PE{ref.I(1)}, Before: []ref.V{ref.Void{}, 1.0}, Add: []ref.V{5.0}, After: []ref.V{ref.Void{}}}}, `[1,5]`, false},
+		{`[0,1]`, []ref.Hunk{{Path: []ref.PE{ref.I(2)}, Before: []ref.V{ref.Void{}, 1.0}, Add: []ref.V{5.0}}}, ``, true},
+		{`[1,2,3]`, []ref.Hunk{{Path: []ref.PE{ref.I(0)}, Remove: []ref.V{1.0}, After: []ref.V{2.0, 3.0, ref.Void{}}}}, `[2,3]`, false},
+		{`[1,2,3,4]`, []ref.Hunk{{Path: []ref.PE{ref.I(0)}, Remove: []ref.V{1.0}, After: []ref.V{2.0, 3.0, ref.Void{}}}}, ``, true},
 		{`1`, []ref.Hunk{{Path: []ref.PE{}, Remove: []ref.V{1.0}, Add: []ref.V{2.0}}}, `2`, false},
 		{``, []ref.Hunk{{Path: []ref.PE{}, Add: []ref.V{2.0}}}, `2`, false},
 	}
@@ -154,6 +161,25 @@ func Run() error {
 		}
 		if !ref.CompareMixed(t, v(h.want)) {
 			return fmt.Errorf("hunk example %d: got %s want %s", i, ref.JSON(t.ToV()), h.want)
+		}
+	}
+	// the reference parsers take one JSON document and nothing after it
+	for _, bad := range []string{`[]]`, `[],`, `[] []`, `[]{}`, `[] x`} {
+		if _, err := ref.ParsePatch(bad); err == nil {
+			return fmt.Errorf("ParsePatch accepts %q", bad)
+		}
+		if _, err := ref.Parse(bad); err == nil {
+			return fmt.Errorf("Parse accepts %q", bad)
+		}
+	}
+	for _, bad := range []string{`[{"op":"add","path":"a","value":1}]`, `[{"op":"add","path":"#/a","value":1}]`} {
+		if _, err := ref.Eval6902(v(`{}`), bad); err == nil {
+			return fmt.Errorf("Eval6902 accepts the pointer in %s", bad)
+		}
+	}
+	for _, bad := range []string{`[{"op":"add","path":"/00","value":1}]`, `[{"op":"add","path":"/+0","value":1}]`, `[{"op":"add","path":"/-0","value":1}]`, `[{"op":"add","path":"/-1","value":1}]`} {
+		if _, err := ref.Eval6902(v(`[]`), bad); err == nil {
+			return fmt.Errorf("Eval6902 accepts the array index in %s", bad)
 		}
 	}
 	// canon sanity
